@@ -364,8 +364,10 @@ class GeneInfo:
         gene_info.start = read_int(infile)
         gene_info.end = read_int(infile)
 
-        gene_info.all_read_region_start = gene_info.start
-        gene_info.all_read_region_end = gene_info.end
+        # the reference window that was in use when the reads of this gene set were collected (it covers the genes and
+        # all their reads): the reference sequence for canonical splice site detection is loaded for the very same window
+        gene_info.all_read_region_start = read_int(infile)
+        gene_info.all_read_region_end = read_int(infile)
 
         # the rest is computed based on the database
         gene_info.reference_region = None
@@ -404,6 +406,8 @@ class GeneInfo:
         write_string(self.chr_id, outfile)
         write_int(self.start, outfile)
         write_int(self.end, outfile)
+        write_int(self.all_read_region_start, outfile)
+        write_int(self.all_read_region_end, outfile)
 
     def empty(self):
         return not self.exon_profiles.features
@@ -681,6 +685,18 @@ class GeneInfo:
         left_pos = ref_start - self.all_read_region_start
         right_pos = ref_end - self.all_read_region_start
         return self.reference_region[left_pos:right_pos+1]
+
+    # make the reference window cover [start, end] as well
+    def extend_reference_window(self, start, end, chr_record=None):
+        if start >= self.all_read_region_start and end <= self.all_read_region_end:
+            return
+        start = min(start, self.all_read_region_start)
+        end = max(end, self.all_read_region_end)
+        if self.reference_region and chr_record:
+            self.set_reference_sequence(start, end, chr_record)
+        else:
+            self.all_read_region_start = start
+            self.all_read_region_end = end
 
     def set_reference_sequence(self, start, end, chr_record):
         self.all_read_region_start = start
